@@ -132,6 +132,16 @@ pub fn run_ska_env(ctx: &Ctx, cwd: &Path, args: &[&str], env: &[(&str, &str)]) -
         .stdout(Stdio::piped())
         .stderr(Stdio::piped())
         .env("RUST_BACKTRACE", "0");
+    // the environment is no input: every seventh call runs with RAYON_NUM_THREADS set (ska sizes its pool from
+    // --threads), every eleventh without HOME and with another TMPDIR
+    match (ctx.counter.get() as usize + salt) % 7 {
+        3 => { cmd.env("RAYON_NUM_THREADS", ["1", "2", "3", "7"][(ctx.counter.get() as usize / 7 + salt) % 4]); }
+        _ => { cmd.env_remove("RAYON_NUM_THREADS"); }
+    }
+    if (ctx.counter.get() as usize + salt) % 11 == 6 {
+        cmd.env_remove("HOME");
+        cmd.env("TMPDIR", cwd);
+    }
     for (k, v) in env {
         cmd.env(k, v);
     }
@@ -288,7 +298,26 @@ pub fn write_fasta_auto(path: &Path, records: &[Vec<u8>], width: Option<usize>) 
 
 pub fn write_fastq(path: &Path, reads: &[(Vec<u8>, Vec<u8>)]) {
     let mut s: Vec<u8> = Vec::new();
+    // a third of the files name their reads as SRA dumps do (@SRR000123.1, @SRR000123.2, ... with the same names in
+    // the mate file), a sixth as older pipelines do (@id/1): names say nothing about what a file holds
+    let style = (reads.len() + reads.first().map(|r| r.0.len()).unwrap_or(0)) % 6;
     for (i, (seq, qual)) in reads.iter().enumerate() {
+        if style == 1 || style == 4 {
+            s.extend_from_slice(format!("@SRR000123.{} {} length={}\n", i + 1, i + 1, seq.len()).as_bytes());
+            s.extend_from_slice(seq);
+            s.extend_from_slice(b"\n+\n");
+            s.extend_from_slice(qual);
+            s.push(b'\n');
+            continue;
+        }
+        if style == 2 {
+            s.extend_from_slice(format!("@HWI-ST{}:{}/1\n", 100 + i / 2, 7 + i).as_bytes());
+            s.extend_from_slice(seq);
+            s.extend_from_slice(b"\n+\n");
+            s.extend_from_slice(qual);
+            s.push(b'\n');
+            continue;
+        }
         // read names as sequencers write them: plain ids, or an id and a description whose filter flag says
         // that the read passed (N) or failed (Y) the instrument's own filter; a read in the file is a read
         match i % 4 {
